@@ -150,19 +150,27 @@ theorem concurrent_save_safe_fails :
     (grow, shrink, delete, expire, replace, PERSIST, in-place sorted-set changes …), what the saver
     wrote for the key — value, declared length, deadline — is the key's state at ONE instant of
     the save. -/
-theorem per_key_consistent (st : KeyState) (evs : List KEv) (r : Rec)
-    (h : (krun true (kinit st) evs).phase = .done (some r)) :
-    r.consistent (krun true (kinit st) evs).hist := by
-  have hj := J_run true evs (kinit st) (J_init true st)
+theorem per_key_consistent (itemsFirst : Bool) (st : KeyState) (evs : List KEv) (r : Rec)
+    (h : (krun true itemsFirst (kinit st) evs).phase = .done (some r)) :
+    r.consistent (krun true itemsFirst (kinit st) evs).hist := by
+  have hj := J_run true itemsFirst evs (kinit st) (J_init true st)
   exact hj.2.2.2 r h (hj.2.1 rfl).2
 
 /-- The save loop as it is (four separate reads): the same, for EVERY interleaving in which no
     command on the key runs between the saver's first and last read of it (decidable: `disturbed`). -/
-theorem per_key_consistent_partial (st : KeyState) (evs : List KEv) (r : Rec)
-    (h : (krun false (kinit st) evs).phase = .done (some r))
-    (hq : (krun false (kinit st) evs).disturbed = false) :
-    r.consistent (krun false (kinit st) evs).hist :=
-  (J_run false evs (kinit st) (J_init false st)).2.2.2 r h hq
+theorem per_key_consistent_partial (itemsFirst : Bool) (st : KeyState) (evs : List KEv) (r : Rec)
+    (h : (krun false itemsFirst (kinit st) evs).phase = .done (some r))
+    (hq : (krun false itemsFirst (kinit st) evs).disturbed = false) :
+    r.consistent (krun false itemsFirst (kinit st) evs).hist :=
+  (J_run false itemsFirst evs (kinit st) (J_init false st)).2.2.2 r h hq
+
+/-- With the sorted-set items materialised before their number is written (the smaller repair), for
+    EVERY interleaving the declared length equals the number of items written: the length/items
+    mismatch that makes a dump unloadable cannot occur (the value/TTL mismatch still can). -/
+theorem zset_length_matches_items (atomic : Bool) (st : KeyState) (evs : List KEv) (r : Rec)
+    (h : (krun atomic true (kinit st) evs).phase = .done (some r)) :
+    r.zlen = (if isZset r.val then some (zitems r.val).length else none) :=
+  (lenOK_run atomic evs (kinit st) ⟨by simp [kinit], by simp [kinit]⟩).2 r h
 
 /-- A consistent record is written as exactly the pair C09's writer emits for that state, so a dump
     holding it is `encSnapshot` of a dataset (and loads back, C09). -/
@@ -174,7 +182,7 @@ theorem consistent_record_is_a_snapshot (ver : Bytes) (t db : Nat) (k : Bytes) (
 /-- witness: `SET k v1 PX …` (deadline 5000); the saver reads the value; a client runs `SET k v2`
     (no TTL); the saver reads the TTL.  Written: `(v1, no TTL)` — a state the key never had. -/
 theorem per_key_consistent_fails_ttl :
-    let m := krun false (kinit (some (.str [118, 49], some 5000)))
+    let m := krun false false (kinit (some (.str [118, 49], some 5000)))
       [.saver, .cmd (.set (.str [118, 50]) none), .saver]
     m.phase = .done (some ⟨.str [118, 49], none, none⟩) ∧
     m.hist = [some (.str [118, 50], none), some (.str [118, 49], some 5000)] ∧
@@ -186,7 +194,7 @@ theorem per_key_consistent_fails_ttl :
     UNLOADABLE: the loader takes the EOF opcode for the third member's length byte
     (`0xFF >> 6 = 3`: invalid length encoding). -/
 theorem per_key_consistent_fails_zset_unloadable :
-    let m := krun false (kinit (some (.zset [([97], 1), ([98], 2), ([99], 3)], none)))
+    let m := krun false false (kinit (some (.zset [([97], 1), ([98], 2), ([99], 3)], none)))
       [.saver, .saver, .saver, .cmd (.zmutate [([97], 1), ([98], 2)]), .saver]
     m.phase = .done (some ⟨.zset [([97], 1), ([98], 2)], some 3, none⟩) ∧
     ¬ (⟨.zset [([97], 1), ([98], 2)], some 3, none⟩ : Rec).consistent m.hist ∧
@@ -206,7 +214,7 @@ theorem per_key_consistent_fails_zset_unloadable :
 /-- witness: the saver writes the length 2 of `{a, b}`; a client adds `0` (rank 0); the saver gets the
     first two members by rank, `{0, a}` — loadable, but a set the key never held. -/
 theorem per_key_consistent_fails_zset_grow :
-    let m := krun false (kinit (some (.zset [([97], 1), ([98], 2)], none)))
+    let m := krun false false (kinit (some (.zset [([97], 1), ([98], 2)], none)))
       [.saver, .saver, .saver, .cmd (.zmutate [([48], 0), ([97], 1), ([98], 2)]), .saver]
     m.phase = .done (some ⟨.zset [([48], 0), ([97], 1)], some 2, none⟩) ∧
     ¬ (⟨.zset [([48], 0), ([97], 1)], some 2, none⟩ : Rec).consistent m.hist := by
@@ -308,9 +316,9 @@ example : noSaveDuringBgsave false (initSys none)
     [.startBgsave ⟨[[1], [2]], some 2⟩, .step 0, .step 0, .step 0, .startSave ⟨[[3]], none⟩, .step 0, .step 0, .step 0] = true := by
   decide
 /-- an undisturbed interleaving: commands before and after the saver's reads of the key -/
-example : (krun false (kinit (some (.zset [([97], 1)], some 9)))
+example : (krun false false (kinit (some (.zset [([97], 1)], some 9)))
     [.cmd (.ttl none), .saver, .saver, .saver, .saver, .cmd .del]).disturbed = false ∧
-    (krun false (kinit (some (.zset [([97], 1)], some 9)))
+    (krun false false (kinit (some (.zset [([97], 1)], some 9)))
     [.cmd (.ttl none), .saver, .saver, .saver, .saver, .cmd .del]).phase = .done (some ⟨.zset [([97], 1)], some 1, none⟩) := by
   decide
 
